@@ -292,7 +292,7 @@ class Runner:
                     "float_mode": c.float,
                 }
             )
-            if not obs:
+            if not obs and not getattr(E, "trivial_ids", []):
                 self.problems.append({"function": c.qual, "kind": "vacuity", "detail": "zero obligations generated"})
             for want in c.cover:
                 if want not in E.covered:
@@ -409,13 +409,17 @@ class Runner:
         lines = []
         nviol = 0
         seen_oids = set()
-        for v in self.violations:
+        # violations on paths that carry a known-finding tag are reported as that finding; an UNTAGGED refutation of the same obligation (another
+        # path, another input class) is a violation of its own -- so untagged ones are looked at first and de-duplicated separately
+        ordered = sorted(self.violations, key=lambda v_: 0 if match_known(known, v_["ob"].env.get("tags", [])) is None else 1)
+        for v in ordered:
             oid = v["oid"]
-            if oid in seen_oids:
+            is_known = match_known(known, v["ob"].env.get("tags", [])) is not None
+            if (oid, is_known) in seen_oids:
                 continue
-            seen_oids.add(oid)
+            seen_oids.add((oid, is_known))
             inputs = fill(v["template"], v["result"]["model"] or {})
-            safe = oid.replace("/", "_").replace("#", "-").replace("<", "").replace(">", "")
+            safe = oid.replace("/", "_").replace("#", "-").replace("<", "").replace(">", "") + ("_known" if is_known else "")
             path = os.path.join(outdir, safe + ".json")
             rec = {
                 "property": prop,
